@@ -1025,7 +1025,14 @@ func runCheck(mode string, args []string) {
 					confirmed[p.ce] = why2
 				} else {
 					spurious++
-					fmt.Printf("  WARNING: counterexample not reproduced natively (spurious, engine or stub imprecision): %s %s %s inputs=%v native=%s\n", p.ce.Entry, p.ce.Kind, p.ce.ID, p.ce.Inputs, trunc(why, 300))
+					sched := ""
+					if p.res != nil && p.res.Concurrent && len(p.ce.Pauses) == 0 {
+						sched = "; no preemption point recorded for this schedule"
+					}
+					if len(p.ce.Pauses) > 0 {
+						sched = fmt.Sprintf("; with pauses at %v: %s %v", p.ce.Pauses, trunc(why2, 200), err2)
+					}
+					fmt.Printf("  WARNING: counterexample not reproduced natively (spurious, engine or stub imprecision): %s %s %s inputs=%v native=%s%s\n", p.ce.Entry, p.ce.Kind, p.ce.ID, p.ce.Inputs, trunc(why, 300), sched)
 				}
 			}
 		}
@@ -1480,6 +1487,9 @@ func confirmBySchedule(tp targetPkg, ov map[string][]byte, ce *CounterExample, v
 		switch pp.Kind {
 		case "lock", "rlock", "encode", "decode", "send", "recv", "select", "wg.Wait", "verifYield":
 			byFile[pp.File] = append(byFile[pp.File], pp)
+		case "unlock", "runlock", "wg.Done":
+			// preempted right AFTER the operation: the pause goes behind the call on that line (also inside a defer)
+			byFile[pp.File] = append(byFile[pp.File], pp)
 		default:
 			return "", false, fmt.Errorf("preemption after %q at %s:%d cannot be expressed as a pause before a statement", pp.Kind, pp.File, pp.Line)
 		}
@@ -1512,6 +1522,22 @@ func confirmBySchedule(tp targetPkg, ov map[string][]byte, ce *CounterExample, v
 			occ := pp.Occ
 			if occ < 1 {
 				occ = 1
+			}
+			if pp.Kind == "unlock" || pp.Kind == "runlock" || pp.Kind == "wg.Done" {
+				method := map[string]string{"unlock": ".Unlock()", "runlock": ".RUnlock()", "wg.Done": ".Done()"}[pp.Kind]
+				l := lines[pp.Line-1]
+				trimmed := strings.TrimSpace(l)
+				pause := fmt.Sprintf("verifPauseHere(%d, %d)", pauseIdx, occ)
+				switch {
+				case strings.HasPrefix(trimmed, "defer ") && strings.HasSuffix(trimmed, method):
+					lines[pp.Line-1] = "defer func() { " + strings.TrimPrefix(trimmed, "defer ") + "; " + pause + " }() // verif: preemption point after the deferred call"
+				case strings.HasSuffix(trimmed, method) && !strings.Contains(trimmed, "{"):
+					lines[pp.Line-1] = l + "; " + pause + " // verif: preemption point after the call"
+				default:
+					return "", false, fmt.Errorf("preemption after %q at %s:%d: the line is not a plain or deferred call of %s", pp.Kind, pp.File, pp.Line, method)
+				}
+				pauseIdx++
+				continue
 			}
 			lines = append(lines[:pp.Line-1], append([]string{fmt.Sprintf("verifPauseHere(%d, %d) // verif: preemption point", pauseIdx, occ)}, lines[pp.Line-1:]...)...)
 			pauseIdx++
